@@ -448,17 +448,21 @@ NoDuplicateCreation ==
 LUsers(l) == {h \in H : hs[h].l = l /\ hs[h].pc \in {"lhit", "lstale", "lnew", "held"}}
 BUsers(b) == {h \in H : hs[h].b = b}
 BLayers(b) == {l \in LIds : layers[l].blob = b /\ ~layers[l].closed}
-LGone(l) == layers[l].closed /\ ~layers[l].meta /\ ~fsd[layers[l].fsd] /\ ~layers[l].files
-BGone(b) == blobs[b].closed /\ ~hd[blobs[b].hd] /\ ~blobs[b].files
+LGone(l) == layers[l].closed /\ ~layers[l].meta /\ ~fsd[layers[l].fsd]
+BGone(b) == blobs[b].closed /\ ~hd[blobs[b].hd]
 \* once every holder has released a layer and it is out of the cache: metadata reader, open files and
 \* both cache directories are gone
 AllReleasedAndEvictedFreesEverything ==
     /\ \A l \in LIds : (lc[layers[l].name] # l /\ LUsers(l) = {}) => LGone(l)
     /\ \A b \in BIds : (bc[blobs[b].name] # b /\ BUsers(b) = {} /\ BLayers(b) = {}) => BGone(b)
-\* nothing of a closed object stays open
+\* nothing of a closed object stays behind: metadata reader closed, directory removed ...
 ClosedMeansGone ==
     /\ \A l \in LIds : layers[l].closed => LGone(l)
     /\ \A b \in BIds : blobs[b].closed => BGone(b)
+\* ... and no file of its cache directory is still open
+NoOpenFilesAfterClose ==
+    /\ \A l \in LIds : layers[l].closed => ~layers[l].files
+    /\ \A b \in BIds : blobs[b].closed => ~blobs[b].files
 \* every directory under the resolver's root belongs to a live object or to a Resolve still running
 \* (so a failed Resolve leaves nothing behind)
 FailedResolveLeaksNothing ==
